@@ -1333,7 +1333,14 @@ def empty_like(a, **kw):
 
 def tensor(data, dtype=None, device=None, requires_grad=False):
     if isinstance(data, Tensor):
-        return data.detach()
+        r = data.detach()
+        if dtype is not None and dtype is not r.dtype:
+            r = r.to(dtype)
+        return r
+    if _is_pyinf(data):
+        r = Tensor("sc", Sc(z3.Real("extended-real-placeholder")), (), dtype or float32)
+        r.ext = z3.IntVal(1 if data > 0 else -1)
+        return r
     if isinstance(data, (bool, int, float, SReal, SInt)):
         dt = dtype or (float32 if isinstance(data, (float, SReal)) else int64)
         return Tensor("sc", Sc.of(data), (), dt)
@@ -1405,6 +1412,52 @@ def as_tensor(data, dtype=None, device=None):
     if isinstance(data, Tensor):
         return data if dtype is None else data.to(dtype)
     return tensor(data, dtype=dtype)
+
+
+# -- elementary functions on fibre scalars (ELEM): uninterpreted, with the identities the verified code relies on ----
+_tan = z3.Function("tan", z3.RealSort(), z3.RealSort())
+_atan = z3.Function("atan", z3.RealSort(), z3.RealSort())
+_cos = z3.Function("cos", z3.RealSort(), z3.RealSort())
+PI_HALF = z3.Real("pi/2")
+
+
+def _elem_axioms(t):
+    c = Ctx.cur
+    if c is None:
+        return
+    c.assume(PI_HALF > 1)
+    c.assume(_cos(t) * _cos(t) * (1 + _tan(t) * _tan(t)) == 1)      # cos^2 (1 + tan^2) = 1
+    c.assume(_cos(t) != 0)
+
+
+def tan(a):
+    if a.kind == "sc" and a.v.is_real() and getattr(a, "ext", None) is None:
+        _elem_axioms(a.v.re)
+        r = a._like(v=Sc(_tan(a.v.re)))
+        return _taped("tan", [a], r, lambda g: [mul(g, Tensor("sc", Sc(1 + _tan(a.v.re) * _tan(a.v.re)), a._shape, a.dtype))])
+    return _opaque_unary("tan", a)
+
+
+def atan(a):
+    ext = getattr(a, "ext", None)
+    if ext is not None:
+        return Tensor("sc", Sc(z3.If(ext == 1, PI_HALF, -PI_HALF)), a._shape, a.dtype)
+    if a.kind == "sc" and a.v.is_real():
+        c = Ctx.cur
+        r = _atan(a.v.re)
+        if c is not None:
+            c.assume(PI_HALF > 1)
+            c.assume(_tan(r) == a.v.re)          # tan(atan x) = x
+            c.assume(z3.And(r > -PI_HALF, r < PI_HALF))
+        return a._like(v=Sc(r))
+    return _opaque_unary("atan", a)
+
+
+def cos(a):
+    if a.kind == "sc" and a.v.is_real() and getattr(a, "ext", None) is None:
+        _elem_axioms(a.v.re)
+        return a._like(v=Sc(_cos(a.v.re)))
+    return _opaque_unary("cos", a)
 
 
 def randn(*shape, dtype=None, device=None):
@@ -1921,6 +1974,7 @@ def install():
     t.Tensor = Tensor
     t.bool = bool_
     t.abs = _torch_abs
+    t.tan, t.atan, t.cos = tan, atan, cos
     t.sum = sum_
     t.max = max_
     t.min = min_
